@@ -36,10 +36,11 @@ def run_kani_for(root, pid, specs, tier, seed, work):
     scratch = tempfile.mkdtemp(prefix="verif-kani-%s-" % pid, dir="/tmp")
     try:
         subprocess.run(["rsync", "-a", "--exclude", "target", "--exclude", ".git", REPO + "/", scratch + "/"], check=True)
-        mods = sorted(set(s["module"] for s in sel if not s.get("cut")))
-        for m in mods:
+        # one harness file per (module, file): kani/<file>_harness.rs is appended to src/<module>.rs as a child module
+        mods = sorted(set((s["module"], s.get("file", s["module"])) for s in sel if not s.get("cut")))
+        for m, hf in mods:
             with open(os.path.join(scratch, "src", m + ".rs"), "a") as f:
-                f.write('\n#[cfg(kani)]\n#[path = "%s/kani/%s_harness.rs"]\nmod verif_kani;\n' % (root, m))
+                f.write('\n#[cfg(kani)]\n#[path = "%s/kani/%s_harness.rs"]\nmod verif_kani%s;\n' % (root, hf, "" if hf == m else "_" + hf))
         # statement cuts (R10): render the harness from the statement text that mtx extracts from /repo on this run
         for sp in sel:
             c = sp.get("cut")
